@@ -1,5 +1,14 @@
 """Contracts for src/lib.rs: error type, Serializable / Deserializable."""
 
+def from_bytes_clauses(N='crate::verif_shim::tnum::<Self::OutputSize>()'):
+    """trait-level contract of Deserializable::from_bytes; restated verbatim on every impl (see c_kdf)"""
+    return f'''
+        ensures
+            /*@C09 C12 C13*/ encoded@.len() != {N} ==> r == Err::<Self, HpkeError>(HpkeError::IncorrectInputLength({N} as usize, encoded@.len() as usize)),
+            /*@C09 C12 C13*/ encoded@.len() == {N} ==> (r is Ok <==> Self::de_valid(encoded@)),
+            /*@C09*/ encoded@.len() == {N} && r is Err ==> r == Err::<Self, HpkeError>(HpkeError::ValidationError),
+            /*@C09 C12 C06*/ r is Ok ==> r.unwrap().ser() == encoded@'''
+
 def apply(F):
     # ghost imports + shim module must precede `mod util` (macro shadowing is textual-order dependent)
     F.replace_exact('#[macro_use]\nmod util;', 'use vstd::prelude::*;\n#[macro_use]\nmod verif_shim;\nmod verif_lemmas;\n#[macro_use]\nmod util;')
@@ -20,4 +29,9 @@ def apply(F):
     F.contract([r'pub trait Serializable\b'], r'fn size\b', ret='r', attrs=['#[verifier::external_body]'], discharged_by='kani:sizes_table', clauses='''
         ensures /*@C12*/ r == crate::verif_shim::tnum::<Self::OutputSize>(),
 ''')
+    F.insert_in([], r'pub trait Deserializable\b', '''
+    /// ghost: which byte strings of the right length are accepted (RFC 9180 Deserialize* validation)
+    spec fn de_valid(b: crate::verif_shim::Bytes) -> bool;
+''')
+    F.contract([r'pub trait Deserializable\b'], r'fn from_bytes\b', ret='r', clauses=from_bytes_clauses() + '\n')
     F.wrap([], r'pub trait Serializable\b', upto_rx=r'pub trait Deserializable\b')
